@@ -937,6 +937,7 @@ pub fn run(ctx: &Ctx) -> i32 {
                 J::s(if full { "all 2^32 (date,time) pairs; all strings up to the enumerated length over the 24-symbol class alphabet" } else { "all dates x 384 times and all times x 384 dates; all strings up to the enumerated length over the 24-symbol class alphabet" }),
             )],
             min_distinct: 1000,
+            min_counters: vec![],
         },
     )
 }
